@@ -144,6 +144,10 @@ Proof.
   { intros m Es Em Ep. rewrite <- Es, <- Em. apply (SG_enter_propose h r m n' o Ep). }
   destruct (r =? 0); (eapply E0; [| |exact E]; reflexivity).
 Qed.
+Lemma SG_enter_new_round_open h r : SG (enter_new_round_open h r).
+Proof.
+  intros n n' o. unfold enter_new_round_open. destruct (step n <? 8); [apply SG_enter_new_round|apply SG_ret].
+Qed.
 
 Lemma SG_enter_precommit h r : SG (enter_precommit h r).
 Proof.
@@ -297,7 +301,7 @@ Proof.
       assert (E2 : sg n2 = sg m /\ height n2 = height m).
       { unfold n2. destruct (lblock m); [|auto]. destruct (_ && _); [|auto]. destruct (maj23 _); [|auto]. destruct (negb _); auto. }
       destruct E2 as [Es Eh]. clearbody n2 PV.
-      destruct (_ && any23 PV).
+      destruct (_ && any23_open _ PV).
       - apply (SG_at (fun k => enter_new_round hh (v_round v) k >>= (fun n3 =>
                  match maj23 (hv_prevotes (votes n3) (v_round v)) with
                  | Some _ => enter_precommit hh (v_round v) n3
@@ -311,14 +315,14 @@ Proof.
         apply (SG_at (enter_prevote hh (round n2)) m n2); auto using SG_enter_prevote. }
     destruct (N.eqb (v_type v) 2); [|discriminate]. cbn zeta.
     destruct (maj23 _) as [b|].
-    + destruct (b_hash b); [apply SG_enter_new_round|]. cbn [andb].
+    + destruct (b_hash b); [apply SG_enter_new_round_open|]. cbn [andb].
       apply (SG_tail (fun k => enter_new_round hh (v_round v) k >>= enter_precommit hh (v_round v) >>= enter_commit c hh (v_round v)) (fun n4 => ret n4)).
       * apply (SG_bind (fun k => enter_new_round hh (v_round v) k >>= enter_precommit hh (v_round v)) (enter_commit c hh (v_round v))).
         -- apply SG_bind; [apply SG_enter_new_round|apply SG_enter_precommit|apply kh_enter_new_round].
         -- apply SG_enter_commit.
         -- apply kh_bind; [apply kh_enter_new_round|apply kh_enter_precommit].
       * intro k. left. reflexivity.
-    + destruct (_ && any23 _); [|apply SG_ret].
+    + destruct (_ && any23_open _ _); [|apply SG_ret].
       apply (SG_bind (fun k => enter_new_round hh (v_round v) k >>= enter_precommit hh (v_round v)) (enter_precommit_wait hh (v_round v))).
       * apply SG_bind; [apply SG_enter_new_round|apply SG_enter_precommit|apply kh_enter_new_round].
       * apply SG_wait2.
